@@ -213,7 +213,9 @@ def run(ctx):
                     [('failure-%s-%s' % (w_, f_), (lambda w_=w_, f_=f_: tg.failure_tears_down(ctx, rng, 'C02', w_, f_)))
                      for w_ in ('app', 'dst') for f_ in ('recv', 'send')] +
                     [('closed-app-streaming-dst', lambda: tg.closed_app_streaming_dst(ctx, rng, 'C02'))] +
-                    [('stop-after-eof-%s' % w_, (lambda w_=w_: tg.stop_after_eof(ctx, rng, 'C02', w_))) for w_ in ('dst', 'app')]):
+                    [('stop-after-eof-%s' % w_, (lambda w_=w_: tg.stop_after_eof(ctx, rng, 'C02', w_))) for w_ in ('dst', 'app')] +
+                    [('connect-with-followers-%d-%d' % (n, k), (lambda n=n, k=k: tg.connect_with_followers(ctx, rng, 'C02', n, k)))
+                     for n, k in ((0, 1), (300, 1), (0, 3), (5000, 2))]):
         ins, outs = fn()
         all_in.append(ins)
         all_out.append(outs)
@@ -253,6 +255,8 @@ def replay(ctx, rep):
             tg.reap_after_reuse(c2, c2.rng, 'C02', maxchan)
         hit = [v for v in c2.violations if v['key'] == rep.get('key')]
         return bool(hit), (str(hit[0]['observed']) if hit else 'the new flow keeps its identifier and its bytes')
+    if ':work:' in rep.get('key', ''):
+        return tg.replay_work(rep['case'])
     s, wrote = tg.replay_script(rep['case'])
     try:
         class Sc:
